@@ -172,6 +172,17 @@ def run(ctx):
         proved = prove(ctx, "C01", extra_targets=["Proofs/CaseTac.vo"])
     n = 10 if ctx.tier == "quick" else 80
     specs = expr_specs()
+    replay_obj = None
+    if getattr(ctx, "replay", None):
+        # ./check C01 --replay <file>: re-evaluate the recorded input first (its point is added to the run's sample)
+        try:
+            replay_obj = json.load(open(ctx.replay if os.path.isabs(ctx.replay) else os.path.join(VERIF, ctx.replay)))
+            d = replay_obj.get("detail", {})
+            if "wavelength_m" in d and "temperature_c" in d and d.get("crystal"):
+                specs = [f"point {d['crystal']} {d['wavelength_m']!r} {d['temperature_c']!r}"] + specs
+                ctx.log(f"replaying {d['crystal']} at {d['wavelength_m']} m, {d['temperature_c']} C")
+        except (OSError, ValueError) as e:
+            ctx.note(f"replay file unreadable: {e}")
     obs = run_harness(ctx, binp, ["c01", ctx.seed, n], stdin="\n".join(specs) + "\n")
     metas, idx = oracle(ctx, obs)
     # user expression crystals built from the same (translated) formulas go through the same comparisons
@@ -184,6 +195,11 @@ def run(ctx):
     for o in eidx:
         ctx.seen(("expr", o["id"], o["w"], o["tk"]))
     idx = idx + eidx
+    if replay_obj is not None:
+        rp = [o for o in obs if o.get("replay")]
+        ctx.cov["replayed"] = [{"crystal": o["id"], "wavelength_m": f64_of_hex(o["w"]), "temperature_c": f64_of_hex(o["tc"]),
+                                "indices": [f64_of_hex(x) for x in o["n"]]} for o in rp]
+        idx = rp + [o for o in idx if not o.get("replay")]
     for o in idx[:3]:
         ctx.sample({"crystal": o["id"], "wavelength_m": f64_of_hex(o["w"]), "temperature_c": f64_of_hex(o["tc"]),
                     "indices": [f64_of_hex(x) for x in o["n"]]})
